@@ -61,6 +61,9 @@ If no debugger is attached, return nil."
 pub fn receive(mem: &mut Memory, args: &[GcRef], _env: GcRef, _recursion_depth: usize) -> Result<GcRef, GcRef> {
     validate_args!(mem, RECEIVE.name, args);    
 
+    #[cfg(picilisp_verif)]
+    crate::memory::verif::before_blocking_receive();
+
     if let Some(umb) = &mut mem.umbilical {
         let msg = umb.from_high_end.recv().expect("supervisor thread disappeared");
         match msg.get("command").map(|s| s.as_str()) {
